@@ -27,6 +27,11 @@ recordings the two calls saw differ (an earlier/the first call modified them) th
 belongs to the inputs-modified finding of (a) and is only counted; else if the FFT length
 changed between two calls although the request was {"n": None} it is the re-resolution
 finding; else it is a generic repeatability / hidden-state finding.
+
+Added later (roots of `_special_roots`): recordings of unequal length in one call and 300 windows in
+one call (depth-1 roots of the same system), and *live histories* (`_live`): process; owner's edit
+(in place or replacing, every component); process; interleaved call; process - on the very same objects,
+judged against equal-valued fresh copies rebuilt from transmitted values in a process without history.
 """
 import contextlib
 import copy
@@ -116,24 +121,47 @@ def path_of(kind):
 # ---------------------------------------------------------------------------
 # building the real objects (always fresh)
 
-def _sig(name):
+REC_LENGTHS = None          # switched on per root (root["lengths"]): samples of every recording, same time step
+
+
+def rec_len(i):
+    return L if REC_LENGTHS is None else int(REC_LENGTHS[i])
+
+
+def max_len(nrec):
+    return max(rec_len(i) for i in range(nrec))
+
+
+def _sig(name, n=L):
     if "+" in name:
         a, b = name.split("+")
-        return A.sig_array(a, L) + 0.1 * A.sig_array(b, L)
-    return A.sig_array(name, L)
+        return A.sig_array(a, n) + 0.1 * A.sig_array(b, n)
+    return A.sig_array(name, n)
+
+
+def rec_spec(i):
+    """Signals and metadata of recording i: the three hand-written ones, then (roots with many windows)
+    deterministic noise windows that all differ."""
+    if i < len(REC_SPECS):
+        return REC_SPECS[i]
+    return dict(ns=f"noise{3 * i + 1}", ew=f"noise{3 * i + 2}", vt=f"noise{3 * i + 3}",
+                meta={"file name(s)": [f"st01_w{i}.{c}.mseed" for c in "nez"],
+                      "station": "ST01", "detrend": "linear", "split": 0.63})
 
 
 def make_recordings(nrec):
     recs = []
-    for i, spec in enumerate(REC_SPECS[:nrec]):
+    for i in range(nrec):
+        spec = rec_spec(i)
+        n = rec_len(i)
         meta = copy.deepcopy(spec["meta"])
         if "coordinates" in meta:       # a mutable value that is neither list, dict nor tuple
             meta["coordinates"] = np.array([12.5, -3.25, 101.0])
         # the second recording's time step is the float32 rounding of 0.01 (what a SAC header gives):
         # it differs from DT by ~2e-10 s, i.e. "equal" for every tolerance but not equal
         dt = DT_NEAR if (i == 1 and NEAR_EQUAL_DT) else DT
-        recs.append(SeismicRecording3C(TimeSeries(_sig(spec["ns"]), dt), TimeSeries(_sig(spec["ew"]), dt),
-                                       TimeSeries(_sig(spec["vt"]), dt), degrees_from_north=DEG,
+        recs.append(SeismicRecording3C(TimeSeries(_sig(spec["ns"], n), dt), TimeSeries(_sig(spec["ew"], n), dt),
+                                       TimeSeries(_sig(spec["vt"], n), dt), degrees_from_north=DEG,
                                        meta=meta))
     return recs
 
@@ -202,7 +230,7 @@ def apply_mr(recs, what):
     if what == "sample":
         recs[0].ns.amplitude[7] = 2.5
     elif what == "sample-last":
-        recs[-1].ew.amplitude[L - 1] = -1.5
+        recs[-1].ew.amplitude[len(recs[-1].ew.amplitude) - 1] = -1.5
     elif what == "meta":
         recs[0].meta["station"] = "ST99"
         recs[0].meta["note"] = "edited after processing"
@@ -441,6 +469,31 @@ class Holder:
         return new
 
 
+def report_inputs(ctx, root, path, before, after, ids_before, ids_after, detail):
+    """(a) the recordings are exactly as they were before the call: one violation per part that changed."""
+    changed = snap_diff(before, after)
+    if ids_before != ids_after:
+        changed.append(("list", None))
+    for part in sorted({p for p, _ in changed}):
+        idx = [i for p, i in changed if p == part]
+        exp = obs = None
+        if part in ("dt", "orientation"):
+            exp = [before[part][i] for i in idx]
+            obs = [after[part][i] for i in idx]
+        elif part == "meta":
+            exp, obs = [], []
+            for i in idx:
+                _, e, o = meta_delta(before[part][i], after[part][i])
+                exp.append(e)
+                obs.append(o)
+        ctx.violation(f"C09:process:{path}:inputs-modified:{part}", root,
+                      detail=dict(detail, part=part, recordings_changed=idx),
+                      expected=exp if exp is not None else "recordings identical to their snapshot before the call",
+                      observed=obs if obs is not None else f"{part} of recording(s) {idx} changed",
+                      explanation=f"process() changed the {part} of the recordings it was given")
+    return changed
+
+
 _REF_CACHE = {}
 
 
@@ -461,6 +514,8 @@ class System:
             self.first_ops = list(self.mr_ops)
         elif first.startswith("Mr:"):
             self.first_ops = [o for o in self.mr_ops if o["what"] == first[3:]]
+        elif first == "P":
+            self.first_ops = list(self.p_ops)
         elif "|" in first:
             self.first_ops = [o for o in self.p_ops if _key(o) == first]
         else:
@@ -566,7 +621,8 @@ class System:
             return self.ref_cache[k]
         if _SERVER is not None:
             ans = _SERVER.request(dict(nrec=self.nrec, kind=op["kind"], w=op["w"], ms=list(ms), mr=list(mr),
-                                       n_used=n_used, fft=self.fft, near_dt=NEAR_EQUAL_DT))
+                                       n_used=n_used, fft=self.fft, near_dt=NEAR_EQUAL_DT,
+                                       lengths=REC_LENGTHS))
             ctx.count("transitions")
             ctx.count("fresh_reference_computed")
             ctx.count("fresh_reference_computed_in_pristine_process")
@@ -582,7 +638,7 @@ class System:
             apply_ms(s, f)
         if n_used is None:
             s.fft_settings = FFT_REQUESTS[self.fft]()
-        elif n_used == L:
+        elif n_used == max_len(self.nrec):
             s.fft_settings = {"n": None}
         else:
             s.fft_settings = {"n": int(n_used)}
@@ -601,27 +657,7 @@ class System:
 
     # ---- judging one process() call -------------------------------------------------
     def _report_inputs(self, ctx, path, before, after, ids_before, ids_after, detail):
-        changed = snap_diff(before, after)
-        if ids_before != ids_after:
-            changed.append(("list", None))
-        for part in sorted({p for p, _ in changed}):
-            idx = [i for p, i in changed if p == part]
-            exp = obs = None
-            if part in ("dt", "orientation"):
-                exp = [before[part][i] for i in idx]
-                obs = [after[part][i] for i in idx]
-            elif part == "meta":
-                exp, obs = [], []
-                for i in idx:
-                    _, e, o = meta_delta(before[part][i], after[part][i])
-                    exp.append(e)
-                    obs.append(o)
-            ctx.violation(f"C09:process:{path}:inputs-modified:{part}", self.root,
-                          detail=dict(detail, part=part, recordings_changed=idx),
-                          expected=exp if exp is not None else "recordings identical to their snapshot before the call",
-                          observed=obs if obs is not None else f"{part} of recording(s) {idx} changed",
-                          explanation=f"process() changed the {part} of the recordings it was given")
-        return changed
+        return report_inputs(ctx, self.root, path, before, after, ids_before, ids_after, detail)
 
     def _P(self, h, op, ctx, muted):
         root = self.root
@@ -643,7 +679,8 @@ class System:
         hist = list(h.hist) + [op]
         detail = dict(hist=hist, settings_object=key, fft_settings_before_call=pre_fft,
                       fft_settings_after_call=jsonable(s.fft_settings),
-                      recordings=f"{self.nrec} x SeismicRecording3C, {L} samples, dt={DT}, "
+                      recordings=f"{self.nrec} x SeismicRecording3C, "
+                                 f"{L if REC_LENGTHS is None else list(REC_LENGTHS)[:6]} samples, dt={DT}, "
                                  f"degrees_from_north={DEG}, signals/meta = REC_SPECS[:{self.nrec}] of hvmc/checks/c09.py",
                       settings=f"make_settings({op['kind']!r}, {op['w']}, fft request {self.fft!r}); "
                                f"in-place edits so far: {ms}")
@@ -656,6 +693,12 @@ class System:
             return v.get("type")
         ctx.count("P_judged")
         ctx.count("P_judged:" + path)
+        if REC_LENGTHS is not None:
+            ctx.count("P_judged_unequal_lengths")
+            ctx.count("P_judged_unequal_lengths:" + path)
+        if self.nrec >= 256:
+            ctx.count("P_judged_many_windows")
+            ctx.count("P_judged_many_windows:" + path)
         ctx.outcome((op["kind"], op["w"], self.fft, n_after, v.get("amplitude"), v.get("type")))
         if len(ctx.samples) < 2 and len(hist) == 2:
             ctx.sample(dict(root=root, hist=hist, fft_after=jsonable(s.fft_settings), result=preview(res)))
@@ -770,6 +813,209 @@ class System:
                 h.snaps[i] = now        # report each change once
 
 
+# ---------------------------------------------------------------------------
+# live histories: the SAME recording objects are processed, edited by their owner and processed again.
+# (The breadth-first exploration above continues every history on a deep copy of the state; a copy has
+# the content but not the identity of the objects, so anything the library remembers ABOUT an object -
+# keyed by the object, its arrays or their addresses - is invisible there.)
+
+COMPONENTS = ("ns", "ew", "vt")
+# what an owner can do to a recording: per component, in place {one sample, the whole array through
+# NumPy, TimeSeries.window()} and replacing the array {TimeSeries.detrend(), assigning a new array};
+# on the recording {window(): in place, detrend(): replacing, orient_sensor_to(): replacing ns/ew}
+LIVE_FORMS_INPLACE = ("elem", "scale", "window")
+LIVE_FORMS_REPLACING = ("detrend", "rebind")
+LIVE_EDITS = ["none"] + [f"{c}:{f}" for c in COMPONENTS for f in LIVE_FORMS_INPLACE + LIVE_FORMS_REPLACING] + \
+    ["rec:window", "rec:detrend", "rec:orient"]
+
+
+def live_edit_class(e):
+    if e == "none":
+        return "no"
+    return "in-place" if (e.split(":")[1] in LIVE_FORMS_INPLACE or e == "rec:window") else "replacing"
+
+
+def apply_live_edit(recs, e):
+    if e == "none":
+        return
+    who, form = e.split(":")
+    if who == "rec":
+        if form == "window":
+            recs[0].window("tukey", 0.5)
+        elif form == "detrend":
+            recs[-1].detrend("constant")
+        elif form == "orient":
+            recs[0].orient_sensor_to(75.0)
+        else:
+            raise KeyError(e)
+        return
+    if form == "elem":
+        getattr(recs[0], who).amplitude[7] = 2.5
+    elif form == "scale":
+        getattr(recs[-1], who).amplitude *= 3.0
+    elif form == "window":
+        getattr(recs[0], who).window("tukey", 0.5)
+    elif form == "detrend":
+        getattr(recs[-1], who).detrend("linear")
+    elif form == "rebind":
+        ts = getattr(recs[0], who)
+        ts.amplitude = ts.amplitude[::-1].copy()
+    else:
+        raise KeyError(e)
+
+
+def pack_recordings(recs):
+    """The VALUES of the recordings (nothing of their identity) - what an equal-valued fresh copy is built from."""
+    return [dict(ns=np.array(r.ns.amplitude, copy=True), ew=np.array(r.ew.amplitude, copy=True),
+                 vt=np.array(r.vt.amplitude, copy=True),
+                 dt=(float(r.ns.dt_in_seconds), float(r.ew.dt_in_seconds), float(r.vt.dt_in_seconds)),
+                 deg=float(r.degrees_from_north), meta=copy.deepcopy(r.meta)) for r in recs]
+
+
+def unpack_recordings(packed):
+    return [SeismicRecording3C(TimeSeries(np.array(d["ns"], copy=True), d["dt"][0]),
+                               TimeSeries(np.array(d["ew"], copy=True), d["dt"][1]),
+                               TimeSeries(np.array(d["vt"], copy=True), d["dt"][2]),
+                               degrees_from_north=d["deg"], meta=copy.deepcopy(d["meta"])) for d in packed]
+
+
+def _pristine_values(req):
+    """One call on fresh recordings built from transmitted values with a pristine settings object."""
+    recs = unpack_recordings(req["recs"])
+    s = make_settings(req["kind"], req["w"], {"n": None})
+    n_used = req["n_used"]
+    if n_used is None:
+        s.fft_settings = FFT_REQUESTS[req["fft"]]()
+    elif n_used == max(len(d["vt"]) for d in req["recs"]):
+        s.fft_settings = {"n": None}
+    else:
+        s.fft_settings = {"n": int(n_used)}
+    got = snap_recordings(recs)
+    res = run_process(recs, s)
+    n_ref = s.fft_settings.get("n") if isinstance(s.fft_settings, dict) else None
+    return (view(res), preview(res), n_ref, got)
+
+
+def values_reference(packed, kind, w, fft, n_used, ctx):
+    req = dict(scenario="values", recs=packed, kind=kind, w=w, fft=fft, n_used=n_used)
+    ctx.count("transitions")
+    ctx.count("fresh_reference_computed")
+    ctx.count("values_reference_computed")
+    if _SERVER is not None:
+        ctx.count("fresh_reference_computed_in_pristine_process")
+        return _SERVER.request(req)
+    _decoy()
+    return _pristine_values(req)
+
+
+def _live(ctx, root):
+    """For every edit e of the root: fresh recordings R and settings objects S (taper w), S' (taper w');
+    process(R, S); e(R); process(R, S); process(R, S'); process(R, S) - all on the same live objects."""
+    nrec, fft, kind, w, w2 = root["nrec"], root["fft"], root["kind"], root["w"], root["w_other"]
+    path = path_of(kind)
+    for e in root["edits"]:
+        recs = make_recordings(nrec)
+        s = make_settings(kind, w, FFT_REQUESTS[fft]())
+        s_other = make_settings(kind, w2, FFT_REQUESTS[fft]())
+        hist = []
+        returned = []       # [result object, its content when returned, position in the history]
+        base = dict(family="live", recordings=f"{nrec} x SeismicRecording3C, {L} samples, dt={DT}, degrees_from_north="
+                                              f"{DEG}, signals/meta = rec_spec(i) of hvmc/checks/c09.py",
+                    settings=f"S = make_settings({kind!r}, {w}, fft request {fft!r}); "
+                             f"S' = make_settings({kind!r}, {w2}, fft request {fft!r})",
+                    edit=f"apply_live_edit(recordings, {e!r})")
+
+        def recheck(op_class, op):
+            for item in returned[:-1] if op_class == "process-call" else returned:
+                now = view(item[0])
+                ctx.count("earlier_results_rechecked")
+                for part in view_diff(item[1], now):
+                    fields, exp, obs = (None, "content as returned", f"{part} changed")
+                    if part == "meta":
+                        fields, exp, obs = meta_delta(item[1].get(part, "null"), now.get(part, "null"))
+                    ctx.violation(f"C09:result:changed-by-later-{op_class}:{part}", root,
+                                  detail=dict(base, hist=list(hist), result_returned_by=item[2], changed_by=op,
+                                              part=part, meta_fields=fields), expected=exp, observed=obs,
+                                  explanation=f"the {part} of a result returned earlier changed when a later "
+                                              f"{op_class} was made on the same live objects")
+                item[1] = now
+
+        def P(sobj, label):
+            pre_fft = copy.deepcopy(sobj.fft_settings)
+            packed = pack_recordings(recs)
+            before = snap_recordings(recs)
+            ids_before = [id(r) for r in recs]
+            res = run_process(recs, sobj)
+            ctx.count("transitions")
+            ctx.count("P_judged")
+            ctx.count("P_judged:" + path)
+            ctx.count("live_P_judged")
+            after = snap_recordings(recs)
+            hist.append(dict(op="P", settings=label))
+            n_after = sobj.fft_settings.get("n") if isinstance(sobj.fft_settings, dict) else None
+            detail = dict(base, hist=list(hist), fft_settings_before_call=pre_fft,
+                          fft_settings_after_call=jsonable(sobj.fft_settings))
+            report_inputs(ctx, root, path, before, after, ids_before, [id(r) for r in recs], detail)
+            v = view(res)
+            returned.append([res, v, len(hist) - 1])
+            recheck("process-call", hist[-1])
+            return dict(res=res, view=v, before=before, packed=packed, n=n_after, pre_fft=pre_fft, detail=detail)
+
+        ctx.count("states")
+        ctx.count("live_histories")
+        ctx.count("live_histories:" + live_edit_class(e) + "-edit")
+        ctx.nontrivial_case(("live", nrec, fft, kind, w, e))
+        P(s, "S")
+        apply_live_edit(recs, e)
+        hist.append(dict(op="edit", what=e))
+        recheck("recording-edit", hist[-1])
+        c2 = P(s, "S")
+        ctx.outcome((kind, w, fft, e, c2["n"], c2["view"].get("amplitude"), c2["view"].get("type")))
+
+        # (b) the recordings processed before and edited by their owner against equal-valued fresh copies
+        ref_view, ref_prev, n_ref, got = values_reference(c2["packed"], kind, w, fft, c2["n"], ctx)
+        if got != c2["before"]:
+            ctx.violation("C09:harness:live-values-not-transmitted", root, detail=c2["detail"],
+                          explanation="the fresh copies built in the reference process do not have the content of "
+                                      "the live recordings (harness defect)")
+        elif c2["n"] is not None and n_ref != c2["n"]:
+            ctx.violation("C09:fresh-differential:fft-length-not-reproducible", root,
+                          detail=dict(c2["detail"], resolved_by_pristine_settings=n_ref), expected=c2["n"],
+                          observed=n_ref, explanation="a pristine settings object cannot be made to resolve the FFT "
+                                                      "length the held settings object used")
+        else:
+            ctx.count("validated")
+            d = view_diff(c2["view"], ref_view)
+            if d:
+                ctx.violation(f"C09:live:{path}:process-after-{live_edit_class(e)}-recording-edit:"
+                              f"differs-from-equal-valued-fresh-copies", root,
+                              detail=dict(c2["detail"], differing_parts=d), expected=ref_prev,
+                              observed=preview(c2["res"]),
+                              explanation="recordings that were processed before (and then edited by their owner) "
+                                          "give another result than equal-valued fresh copies of themselves with a "
+                                          "pristine settings object of the same FFT length: process() left state "
+                                          "behind that is tied to the recording objects")
+            else:
+                ctx.count("live_fresh_equal")
+
+        # (c) an interleaved call with another settings object, then the same call again
+        P(s_other, "S'")
+        c3 = P(s, "S")
+        ctx.count("validated")
+        ctx.count("live_repeat_checked")
+        d = view_diff(c2["view"], c3["view"])
+        if not d:
+            ctx.count("repeat_identical")
+        elif explained_by_inputs(d, c2["before"], c3["before"]):
+            ctx.count("repeat_difference_attributed_to_modified_inputs")
+        else:
+            ctx.violation(f"C09:live:{path}:repeat-after-interleaved-call:result-differs", root,
+                          detail=dict(c3["detail"], differing_parts=d, fft_n=[c2["n"], c3["n"]]),
+                          expected=preview(c2["res"]), observed=preview(c3["res"]),
+                          explanation="process(R, S); process(R, S'); process(R, S) on the same live objects: the "
+                                      "two results for S differ although nothing was edited in between")
+
+
 def _key(op):
     return f"{op['kind']}|{op['w']}"
 
@@ -803,7 +1049,7 @@ def _interleaved(ctx, root):
     """call; unrelated calls on other data (one of them with a window longer than the default FFT length); the
     same call again - in a process without any other history.  (fft request {'n': None} is left out: its
     re-resolution on the second call is the known finding of this property.)"""
-    if _SERVER is None or root["fft"] == "nopad":
+    if _SERVER is None or root["fft"] == "nopad" or root.get("lengths") or root["nrec"] > 3:
         return
     kinds = root["kinds"] if root["first"] in ("Mr",) or root["first"].startswith("Mr:") else [root["first"].split("|")[0]]
     for kind in kinds:
@@ -841,7 +1087,46 @@ def _root(nrec, fft, first, depth, kinds, widths, mr, ms_targets):
                 mr=list(mr), ms_targets=list(ms_targets))
 
 
+UNEQUAL_LENGTHS = {2: [[64, 48], [48, 64]], 3: [[64, 48, 80], [80, 64, 64], [64, 64, 48]]}
+MANY = 300                  # more windows in one call than any block / batch size met in the library (>= 256)
+KINDS_MANY_QUICK = ["psd", "psd_raw", "diffuse", "fd:geometric_mean", "single"]
+KINDS_MANY = KINDS_MANY_QUICK + ["rotdpp", "azimuthal"]
+KINDS_LIVE_QUICK = ["fd:geometric_mean", "single", "rotdpp", "azimuthal", "diffuse", "psd", "psd_raw"]  # one per path
+
+
+def _special_roots(tier):
+    """Roots that leave the 'one to three recordings of equal length' shape; depth 1 (every process() call is
+    judged: inputs untouched, fresh-state differential, immediate repeat) and the live histories."""
+    out = []
+    quick = tier == "quick"
+    kinds = (KINDS_QUICK if quick else KINDS_ALL) + ["psd_raw"]
+    # (1) recordings of different length with the same time step in one call
+    for nrec, patterns in UNEQUAL_LENGTHS.items():
+        for lengths in patterns:
+            for fft in (("default", "nopad") if quick else FFT_REQUESTS):
+                r = _root(nrec, fft, "P", 1, kinds, [0.1] if quick else WIDTHS, [], ["last"])
+                r["lengths"] = list(lengths)
+                out.append(r)
+    # (2) many windows in one call
+    for kind in (KINDS_MANY_QUICK if quick else KINDS_MANY):
+        for fft in (("default",) if quick else ("default", "nopad")):
+            out.append(_root(MANY, fft, "P", 1, [kind], [0.1], [], ["last"]))
+    # (3) live histories
+    for kind in (KINDS_LIVE_QUICK if quick else kinds):
+        combos = [(2, "default", 0.1, 0.5)]
+        if not quick:       # every FFT request x 1-3 recordings; the other taper pairs on two recordings
+            combos = [(n, f, 0.1, 0.5) for n in (1, 2, 3) for f in FFT_REQUESTS] + \
+                [(2, "default", 0.0, 0.1), (2, "default", 0.5, 0.0)]
+        for nrec, fft, w, w2 in combos:
+            out.append(dict(family="live", nrec=nrec, fft=fft, kind=kind, w=w, w_other=w2, edits=list(LIVE_EDITS)))
+    return out
+
+
 def roots(tier, seed):
+    return _base_roots(tier) + _special_roots(tier)
+
+
+def _base_roots(tier):
     out = []
 
     def add(nrec, fft, depth, kinds, widths, mr, ms_targets):
@@ -945,10 +1230,13 @@ def _pristine_interleaved(req):
 
 def _pristine_reference(req):
     """Runs in a fresh child of the pristine server: one call, no history."""
-    global NEAR_EQUAL_DT
+    global NEAR_EQUAL_DT, REC_LENGTHS
     if req.get("scenario") == "interleaved":
         return _pristine_interleaved(req)
     NEAR_EQUAL_DT = bool(req.get("near_dt"))
+    REC_LENGTHS = req.get("lengths")
+    if req.get("scenario") == "values":
+        return _pristine_values(req)
     recs = make_recordings(req["nrec"])
     for m in req["mr"]:
         apply_mr(recs, m)
@@ -958,7 +1246,7 @@ def _pristine_reference(req):
     n_used = req["n_used"]
     if n_used is None:
         s.fft_settings = FFT_REQUESTS[req["fft"]]()
-    elif n_used == L:
+    elif n_used == max_len(req["nrec"]):
         s.fft_settings = {"n": None}
     else:
         s.fft_settings = {"n": int(n_used)}
@@ -977,15 +1265,21 @@ def warm():
 
 
 def run_root(root, ctx, tier):
-    global NEAR_EQUAL_DT
+    global NEAR_EQUAL_DT, REC_LENGTHS
     NEAR_EQUAL_DT = bool(root.get("near_dt"))
-    _REF_CACHE.clear() if NEAR_EQUAL_DT else None
+    REC_LENGTHS = root.get("lengths")
+    special = NEAR_EQUAL_DT or REC_LENGTHS is not None      # the memo of references is keyed without these
+    _REF_CACHE.clear() if special else None
     try:
-        _run_root(root, ctx, tier)
+        if root.get("family") == "live":
+            _live(ctx, root)
+        else:
+            _run_root(root, ctx, tier)
     finally:
-        if NEAR_EQUAL_DT:
+        if special:
             _REF_CACHE.clear()
         NEAR_EQUAL_DT = False
+        REC_LENGTHS = None
 
 
 def _run_root(root, ctx, tier):
@@ -1005,8 +1299,14 @@ def finalize(ctx, tier):
     c = ctx.counters
     need = ["P_judged", "validated", "immediate_repeat_checked", "history_repeat_checked",
             "earlier_results_rechecked", "fresh_reference_computed"]
-    need += ["P_judged:" + p for p in ("frequency-domain", "single-azimuth", "rotdpp", "azimuthal",
-                                         "diffuse-field", "psd")]
+    paths = ("frequency-domain", "single-azimuth", "rotdpp", "azimuthal", "diffuse-field", "psd")
+    need += ["P_judged:" + p for p in paths]
+    # the spaces added later: unequal lengths and many windows on every path (thorough; quick: the paths of
+    # KINDS_MANY_QUICK), live histories with every class of edit, values transmitted to the reference process
+    need += ["P_judged_unequal_lengths:" + p for p in paths]
+    need += ["P_judged_many_windows:" + path_of(k) for k in (KINDS_MANY_QUICK if tier == "quick" else KINDS_MANY)]
+    need += ["live_histories:" + c + "-edit" for c in ("no", "in-place", "replacing")]
+    need += ["live_fresh_equal", "live_repeat_checked", "values_reference_computed"]
     missing = [k for k in need if not c.get(k)]
     if missing or len(ctx.outcomes) < 20:
         ctx.violation("C09:harness:vacuous", dict(tier=tier), observed=dict(missing=missing,
@@ -1031,6 +1331,8 @@ def describe(tier):
         bounds=dict(depth="2 quick; thorough 3 for the unpadded request (all kinds) and for 2 recordings with the "
                           "padded requests (8 kinds), 2 otherwise",
                     recordings="1-3 x 64 samples, dt 0.01", tukey_widths=WIDTHS,
+                    unequal_lengths={f"{k} recordings": v for k, v in UNEQUAL_LENGTHS.items()}, many_windows=MANY, live_edits=LIVE_EDITS,
+                    live_kinds=(KINDS_LIVE_QUICK if tier == "quick" else KINDS_ALL + ["psd_raw"]),
                     fft_requests=list(FFT_REQUESTS),
                     kinds=(KINDS_QUICK if tier == "quick" else KINDS_ALL) + ["psd_raw (own roots)"],
                     determinism_replays="thorough, roots of depth 2"),
@@ -1041,14 +1343,35 @@ def describe(tier):
                      "recordings, kind, width, settings edits, recording edits, n) inside a worker process",
                      "a result difference between two calls that saw different recordings is attributed to the "
                      "inputs-modified finding reported at the call that changed them, not reported again",
-                     "all recordings of a root have the same length and time step; alias method names and "
-                     "dissimilar time steps are not exercised (C01 / C03)"])
+                     "recordings of one call have the same time step except in the near-equal time-step roots; "
+                     "lengths differ only in the unequal-length roots (48/64/80 samples); alias method names and "
+                     "really dissimilar time steps are not exercised (C01 / C03)",
+                     "live histories: one edit per history, two recordings, tapers (0.1, 0.5) and the default FFT "
+                     "request in quick (thorough: 1-3 recordings x all three FFT requests, and two more taper pairs); edits that change the number of samples (trim) are not "
+                     "in the alphabet"])
 
+
+_RULE_R5 = (
+    "Three further families leave the shape 'one to three recordings of equal length, every history continued on a "
+    "deep copy'. (1) Unequal lengths: roots with recordings of " + repr(UNEQUAL_LENGTHS) + " samples (same time "
+    "step) in one call, every kind (+ unsmoothed PSD), FFT requests default and {'n': None} (thorough: all three, "
+    "all widths), depth 1: every process() is judged - recordings bit-identical afterwards, result equal to the "
+    "pristine-process reference, immediate repeat with the same settings object identical. (2) Many windows: "
+    f"{MANY} recordings of 64 samples (all different) in one call, one root per kind of " + repr(KINDS_MANY_QUICK) +
+    " (thorough: + RotDpp, azimuthal, and the {'n': None} request), depth 1, same three oracles. (3) Live histories "
+    "on the SAME objects (no copy anywhere): for every kind (quick: one per processing path), and every owner's "
+    "edit e of {none; per component ns/ew/vt: one sample, whole array *= 3 through NumPy, TimeSeries.window() "
+    "[in place], TimeSeries.detrend(), assignment of a new array [replacing]; SeismicRecording3C.window() [in "
+    "place], .detrend(), .orient_sensor_to() [replacing]}: process(R, S); e(R); process(R, S); process(R, S'); "
+    "process(R, S) with S' the same kind with another taper. Every call must leave R bit-identical; the call after "
+    "the edit must equal the result for equal-valued FRESH copies of R (the values are transmitted to a process "
+    "without history and rebuilt there) with a pristine settings object of the same FFT length; the last call must "
+    "equal the one before the interleaved call; earlier results are re-read after every step.")
 
 _describe_base = describe
 
 
 def describe(tier):     # noqa: F811 - the base description plus what later rounds added to the space
     d = _describe_base(tier)
-    d["rule"] = d["rule"] + " " + "Once per (number of recordings, kind, FFT request != nopad) an interleaved scenario is executed in a fresh child of the pristine server: call; short decoy; a 40000-sample window with default FFT settings; three refused calls on the caller's recordings; equal data with a taper 0.004 wider; the call again with the same settings object; and with a pristine settings object - all three results must be identical."
+    d["rule"] = d["rule"] + " " + _RULE_R5 + " Once per (number of recordings, kind, FFT request != nopad) an interleaved scenario is executed in a fresh child of the pristine server: call; short decoy; a 40000-sample window with default FFT settings; three refused calls on the caller's recordings; equal data with a taper 0.004 wider; the call again with the same settings object; and with a pristine settings object - all three results must be identical."
     return d
